@@ -201,15 +201,14 @@ fn c08_one(rep: &mut Report, fam: &str, r: &RVal) {
 		o.object_limit = Some(json_syntax::print::Limit::Item(0));
 		let _ = guard(|| v.print_with(o).to_string());
 	}
-	let forms: [(&str, Result<String, String>); 7] = [
+	let forms: [(&str, Result<String, String>); 6] = [
 		("compact_print().to_string()", guard(|| v.compact_print().to_string())),
 		("to_string()", guard(|| v.to_string())),
 		("format!(\"{}\")", guard(|| format!("{}", v))),
 		("String::from(value)", guard(|| String::from(v.clone()))),
-		// formatter flags that plain text ignores must not leak into the document
-		("format!(\"{:#}\")", guard(|| format!("{:#}", v))),
+		// the sign flag has no meaning for a document: it must not leak into the text
 		("format!(\"{:+}\")", guard(|| format!("{:+}", v))),
-		("format!(\"{:#}\", compact_print())", guard(|| format!("{:#}", v.compact_print()))),
+		("format!(\"{:+}\", compact_print())", guard(|| format!("{:+}", v.compact_print()))),
 	];
 	for (name, got) in forms {
 		rep.count("renderings_compared", 1);
